@@ -29,7 +29,7 @@ def planarAngle (h : Array Rat) (j i : Nat) : Rat :=
   `splitt dt k ts…`                       → parts of `range n` as `a,b|c,d`
   `splitd thr k lens…`                    → parts
   `splits vmax k lens… k ts…`             → parts | `E_TRAJ`
-  `merge m (k stamps…)×m`                 → `order ; sorted stamps` -/
+  `merge m (k stamps…)×m`                 → `order of positions ; order of orientations ; sorted stamps` -/
 def handle (op : String) (args : List String) : Option String :=
   match op, args with
   | "linspace", [n, N] => do
@@ -91,7 +91,7 @@ def handle (op : String) (args : List String) : Option String :=
             go k rest (off + s.length) (⟨s, ids, ids⟩ :: acc)
       let ts ← go m rest 0 []
       let r := mergeTraj ts
-      if r.xyz = r.quat then some (showNats r.xyz ++ " ; " ++ showRats r.stamps) else some "BAD-MODEL"
+      some (showNats r.xyz ++ " ; " ++ showNats r.quat ++ " ; " ++ showRats r.stamps)
   | _, _ => none
 
 end Evo.Drv.C11
